@@ -72,6 +72,8 @@ pub struct Pt {
     pub t: usize,
     pub index: u16,
     pub class: Option<u8>,
+    /// seed of the generator that picks the point's variations (the same ones when the point is defined again)
+    pub vseed: u64,
 }
 
 fn class_of(c: u8) -> EventClass {
@@ -296,6 +298,34 @@ impl<'a> World<'a> {
 
     fn held_count_type(&self, t: usize) -> usize {
         self.held().filter(|e| e.t == t).count()
+    }
+
+    /// take a point out of the database and define it again with the same variations: the events it has in the buffer
+    /// are unaffected, later updates make new ones. The class changes only when the point holds no event (objects of
+    /// variations without a time stamp are attributed to events by point, value and flags; two held events of one point
+    /// in different classes could not be told apart)
+    pub fn remove_and_add(&mut self, pt_i: usize) {
+        let pt = self.pts[pt_i].clone();
+        let holds = self.held().any(|e| e.t == pt.t && e.index == pt.index);
+        let class = if !holds && self.r.chance(1, 2) {
+            *self.r.pick(&[None, Some(1u8), Some(2), Some(3)])
+        } else {
+            pt.class
+        };
+        let removed = self.sim.db(|db| {
+            let x = super::c11::remove(db, pt.t, pt.index);
+            add_point(db, &mut Rng::new(pt.vseed), pt.t, pt.index, class);
+            x
+        });
+        if !removed {
+            self.viol("C03", "remove_refused", &format!("t{}", pt.t), format!("removing the existing point {pt:?} returned false"), J::Null);
+        }
+        self.pts[pt_i].class = class;
+        self.hist.push(format!("t={} point {pt:?} removed and added again with class {class:?}", self.sim.now()));
+        out::count("points_removed_and_added_again", 1);
+        if holds {
+            out::count("points_removed_while_holding_events", 1);
+        }
     }
 
     /// one database update with a unique timestamp; records the ledger entry
@@ -1790,14 +1820,14 @@ pub async fn scenario(a: &ShardArgs, check: &'static str, profile: &'static str,
                 t,
                 index: i * 7 + (t as u16 % 3),
                 class,
+                vseed: r.u64(),
             });
         }
     }
-    let mut rr = r.fork();
     let pts2 = pts.clone();
     let sim = OutSim::start_with(cfg.clone(), |db| {
         for p in &pts2 {
-            add_point(db, &mut rr, p.t, p.index, p.class);
+            add_point(db, &mut Rng::new(p.vseed), p.t, p.index, p.class);
         }
     })
     .await;
@@ -1852,6 +1882,9 @@ pub async fn scenario(a: &ShardArgs, check: &'static str, profile: &'static str,
                 let k = w.r.range(1, 5);
                 for _ in 0..k {
                     let p = w.r.usize_below(w.pts.len());
+                    if w.r.chance(1, 10) {
+                        w.remove_and_add(p);
+                    }
                     w.update(p);
                 }
                 let rx = w.idle_collect().await;
